@@ -1,3 +1,3 @@
-(* _client.py :: async_ncrypt_protect_secret :: ('callarg', '_async_get_key', 0, 2) :  root_key_identifier *)
+(* _client.py :: async_ncrypt_protect_secret :: shape kernel :  _async_get_key(... 2: root_key_identifier  [= root_key_identifier] ...) *)
 Definition k_onl_aprot_arg2 (root_key_identifier : list Z) : list Z :=
   root_key_identifier.
